@@ -323,8 +323,9 @@ func builtinUnescape(input string) string {
 				}
 			}
 		}
-		output = append(output, rune(input[index]))
-		index++
+		chr, width := utf8.DecodeRuneInString(input[index:])
+		output = append(output, chr)
+		index += width
 	}
 	return string(output)
 }
